@@ -128,6 +128,22 @@ Definition log1 : list event :=
 Example log1_accepted : accepts cfg1 log1 = true.
 Proof. vm_compute. reflexivity. Qed.
 
+(** the receive timer racing with a message in flight: the timeout goroutine
+    has already cancelled the stream (hidden step) and Recv still hands over a
+    message; it is delivered, the next Recv fails, Reset / ConnectError /
+    MonitorError follow and Remove returns *)
+Definition cfgT : cfg := {| c_creds := false; c_hops := 1; c_timeout := true |}.
+
+Example late_message_after_timeout :
+  existsb (fun s => pc_eqb (s_pc s) (PRecv false) && s_sdone s)
+          (reach_set cfgT [EAddCalled; EAdd true; EDial true; EOpen true; ESend true]) = true
+  /\ accepts cfgT [EAddCalled; EAdd true; EDial true; EOpen true; ESend true;
+                   ERecv (RMsg (MUpdate 1)); CConnect; CUpdate 1; ERecv RCancel; CReset; EDone;
+                   CConnErr; CMonErr; EDial true; EOpen true; ESend true; ERemoveCalled;
+                   ERecv (RMsg MSync); CConnect; CSync; ERecv RCancel; CReset; EDone; CConnErr;
+                   CMonErr; ERemoveReturned true] = true.
+Proof. vm_compute. split; reflexivity. Qed.
+
 (** the model refuses what the property forbids: Connect before data, a second
     Reset, a callback after Remove returned, a stream ended without Reset *)
 Example bad_connect_early :
